@@ -5,6 +5,9 @@ import json, subprocess
 HOOK_COMMITS = subprocess.run(
     ["git", "-C", "/repo", "log", "--format=%H %s", "--grep=^verif hook"], capture_output=True, text=True
 ).stdout.strip().splitlines()
+FIX_COMMITS = subprocess.run(
+    ["git", "-C", "/repo", "log", "--format=%H %s", "--grep=^fix:"], capture_output=True, text=True
+).stdout.strip().splitlines()
 
 # id -> (claimed, engine, category, technique, text, note, design_ref)
 CHECKS = {
@@ -73,6 +76,36 @@ CHECKS = {
             "All cursor sequences up to the depth bound including buffered insert runs in both directions; every returned entry, accept/UnorderedKey decision and the table after close must equal the model.",
             "bounded depth; three/four type pairs",
             "DESIGN.md 3/C18"),
+    "C03": (True, "schedx", "model_checking",
+            "stateless model checking of the real code under a controlled scheduler: all thread schedules up to a preemption bound (iterative context bounding) with a shared-object reduction",
+            "Every schedule with at most k preemptions of 2-3 real threads (writer/readers, writer/writer, page reuse under a reader, Database drop racing a live transaction, savepoint drop racing a commit) is executed; single-writer, serial order, no lost update, snapshot windows, monotonic views, no deadlock, accounting and the backend contract are judged on every one.",
+            "sequentially consistent scheduling at synchronisation operations only; bounded threads and preemptions; reduction to objects shared by >= 2 threads (cross-checked against the unreduced search in the thorough tier)",
+            "DESIGN.md 3/C03"),
+    "C12": (True, "corruptx", "fault_enumeration",
+            "exhaustive enumeration of byte/run/page-swap/truncation alterations over the read set of closed images, executed through the real open + check_integrity + read path",
+            "Every alteration of every read-set byte (8 bit flips, 0x00, 0xFF), aligned runs, page swaps and truncations of clean and crash-stopped base images is opened, checked and read; Ok(true)/Ok(false) must never be followed by contents that are not a commit point, and damage must be reported, not panic.",
+            "redb is built without debug assertions for this check (as users build it); alterations outside the read set are soundly skipped; one alteration per image",
+            "DESIGN.md 3/C12"),
+    "C14": (True, "allocx", "model_checking",
+            "explicit-state breadth-first search to a fixpoint over the real BuddyAllocator / RegionTracker (through cfg(redb_verif) wrappers) against a page-array model, plus depth-bounded search of the real multi-region allocation path",
+            "All reachable allocator states for region capacities 8/12/16 (24/32 restricted) under alloc, alloc_lowest, free, record_alloc, resize and save/reload are compared with a page-array model after every transition; the real TransactionalMemory allocate/free path is explored to a depth bound with the tracker-never-hides-free-space oracle.",
+            "small region capacities; level-2 depth bound",
+            "DESIGN.md 3/C14"),
+    "C15": (True, "typex", "model_checking",
+            "exhaustive enumeration of all pairs (and triples) of closed key domains through the real Key/Value trait methods, then whole-domain tables on 512-byte pages",
+            "For every built-in key type a closed domain is enumerated: every ordered pair compares like the native order and round-trips, every a<b separator is a valid encoding with a <= s < b and not longer than a, every triple is order-consistent, and tables built from the whole domain iterate, look up and decode correctly.",
+            "closed small domains per type; uuid/chrono feature types not built",
+            "DESIGN.md 3/C15"),
+    "C16": (True, "schedx", "model_checking",
+            "stateless model checking under a controlled scheduler of one write transaction shared by three threads, all schedules up to a preemption bound",
+            "Every schedule with at most k preemptions of three threads using one WriteTransaction (table, multimap crossing the inline/subtree threshold, ephemeral_savepoint) is executed; committed contents, the independent decoder (no page shared between tables), savepoint eligibility and restore, page accounting and drain are judged on every one.",
+            "sequentially consistent scheduling: the Relaxed PageTracker.tracking flag is not explored under weak memory",
+            "DESIGN.md 3/C16"),
+    "C19": (True, "compatx", "model_checking",
+            "bounded-exhaustive enumeration of histories executed by both redb versions, every resulting image opened and fully compared by the other version",
+            "Every history up to the length bound over the step alphabet and table profiles is written by the working tree (and by redb 3.0.0, and mixed); each clean and crash-stopped image is opened, integrity-checked and read completely by the other version and must agree; the independent decoder runs on the decodable profiles.",
+            "redb 3.0.0 from the offline registry; two known findings (composite type byte, Ok(false) on trimmed files) recorded in known_findings.json",
+            "DESIGN.md 3/C19"),
     "C20": (True, "contractx", "model_checking",
             "contract monitor on the storage backend over exhaustively enumerated failing opens, fault indices, read-only opens, deferred closes and operation sequences",
             "The monitor (bounds, close exactly once, nothing after close, read-only is read-only) is evaluated on every enumerated failing open, every I/O-error index of open, read-only opens, Database drops with live transactions, and every depth-2 operation sequence; it is also active inside every other check.",
@@ -107,7 +140,7 @@ def main():
         na.append({"property_id": pid, "reason": NOT_YET.get(pid, "check not built yet in this round of work; planned in DESIGN.md section 3, engine not finished")})
     m = {
         "version": 1,
-        "setup_cmd": "cd /verif/harness && CARGO_NET_OFFLINE=true cargo build --release --offline --bin vh",
+        "setup_cmd": "cd /verif/harness && CARGO_NET_OFFLINE=true cargo build --release --offline --workspace --bins && CARGO_NET_OFFLINE=true cargo build --profile nodbg --offline -p vh-corruptx --bin vh-corruptx",
         "hooks": {
             "guard": "redb_verif",
             "enable": "RUSTFLAGS='--cfg fuzzing --cfg redb_verif' (set in /verif/harness/.cargo/config.toml); redb is a path dependency of the harness, rebuilt from /repo's working tree",
@@ -120,11 +153,16 @@ def main():
             {"name": "crashx", "path": "harness/src/crashx.rs", "serves_properties": ["C01", "C07", "C11", "C13"], "kind_free_text": "crash-point / lost-write / torn-write enumerator over recorded storage logs"},
             {"name": "faultx", "path": "harness/src/faultx.rs", "serves_properties": ["C08", "C05"], "kind_free_text": "backend-call fault index enumerator"},
             {"name": "contractx", "path": "harness/src/contractx.rs", "serves_properties": ["C20"], "kind_free_text": "backend contract monitor + failing-open enumerations"},
+            {"name": "schedx", "path": "harness/src/schedx.rs", "serves_properties": ["C03", "C16"], "kind_free_text": "controlled scheduler, preemption-bounded DFS over schedules of the real code (worker processes)"},
+            {"name": "corruptx", "path": "harness/x/corruptx/src/corruptx.rs", "serves_properties": ["C12"], "kind_free_text": "alteration enumerator over closed images"},
+            {"name": "allocx", "path": "harness/x/allocx/src/allocx.rs", "serves_properties": ["C14"], "kind_free_text": "explicit-state search of the allocator"},
+            {"name": "typex", "path": "harness/x/typex/src/typex.rs", "serves_properties": ["C15"], "kind_free_text": "closed-domain enumeration of key encodings"},
+            {"name": "compatx", "path": "harness/x/compatx/src/compatx.rs", "serves_properties": ["C19"], "kind_free_text": "cross-version history enumeration"},
             {"name": "decode", "path": "harness/src/decode.rs", "serves_properties": ["C10", "C11"], "kind_free_text": "independent file-format decoder (oracle)"},
         ],
         "checks": checks,
         "not_applicable": na,
-        "notes": "All checks explore the real redb code (path dependency on /repo with --cfg redb_verif hooks); no abstract model decides anything. Known findings: /verif/known_findings.json.",
+        "notes": "Fix commits in /repo: " + "; ".join(FIX_COMMITS) + ". All checks explore the real redb code (path dependency on /repo with --cfg redb_verif hooks); no abstract model decides anything. Known findings: /verif/known_findings.json.",
     }
     json.dump(m, open("/verif/MANIFEST.json", "w"), indent=1)
     print(f"{len(checks)} checks, {len(na)} not applicable")
